@@ -84,12 +84,25 @@ type Path struct {
 	lastJSON   Value
 	jsonCalls  int
 	lastPanic  string
+	pinned     map[*smt.Term]*smt.Term
+	pinnedVars map[string]*smt.Term
+	pinMemo    map[*smt.Term]*smt.Term
+	pinMemoGen int
+	fnStack    []*ssa.Function
 	merged     int
 	params     map[string]int64
 }
 
 func (p *Path) abortf(format string, args ...interface{}) {
-	panic(abort{fmt.Sprintf(format, args...)})
+	where := ""
+	if n := len(p.fnStack); n > 0 {
+		where = " [in " + p.fnStack[n-1].String()
+		if n > 1 {
+			where += " <- " + p.fnStack[n-2].String()
+		}
+		where += "]"
+	}
+	panic(abort{fmt.Sprintf(format, args...) + where})
 }
 
 func (p *Path) record(d int64) { p.decisions = append(p.decisions, d) }
@@ -133,6 +146,11 @@ func (p *Path) assume(c *smt.Term) {
 func (p *Path) decided(c *smt.Term) (bool, bool) {
 	if c.IsConst() {
 		return c.C == 1, true
+	}
+	if len(p.pinned) > 0 {
+		if r := p.resolve(c); r.IsConst() {
+			return r.C == 1, true
+		}
 	}
 	if p.pcSet[c] {
 		return true, true
@@ -292,7 +310,32 @@ func (p *Path) branch(c *smt.Term) bool {
 
 // concretize turns an integer term into a concrete value, forking over all
 // feasible values (model-and-block). sx tells how to read the value.
+// resolve substitutes terms that an earlier concretisation pinned to a
+// constant, folding t to a constant where possible (no solver involved).
+func (p *Path) resolve(t *smt.Term) *smt.Term {
+	if t.IsConst() || len(p.pinned) == 0 {
+		return t
+	}
+	if p.pinMemoGen != len(p.pinned) {
+		p.pinMemo = map[*smt.Term]*smt.Term{}
+		p.pinMemoGen = len(p.pinned)
+	}
+	return smt.Subst(t, func(x *smt.Term) *smt.Term {
+		if c, ok := p.pinned[x]; ok {
+			return c
+		}
+		if x.Op == smt.OpVar {
+			if c, ok := p.pinnedVars[x.Name]; ok {
+				return c
+			}
+		}
+		return nil
+	}, p.pinMemo)
+}
+
 func (p *Path) concretize(t *smt.Term, signed bool, what string) int64 {
+	orig := t
+	t = p.resolve(t)
 	rd := func(c uint64) int64 {
 		if signed {
 			w := t.Sort.W
@@ -314,7 +357,7 @@ func (p *Path) concretize(t *smt.Term, signed bool, what string) int64 {
 		v = p.prefix[p.cursor]
 		p.cursor++
 	} else {
-		const capN = 600
+		const capN = 130
 		p.sess.Name(t)
 		var vals []int64
 		block := smt.True
@@ -351,7 +394,17 @@ func (p *Path) concretize(t *smt.Term, signed bool, what string) int64 {
 		}
 	}
 	p.record(v)
-	p.assume(smt.Eq(t, smt.ConstBV(t.Sort.W, uint64(v))))
+	cv := smt.ConstBV(t.Sort.W, uint64(v))
+	p.assume(smt.Eq(t, cv))
+	if p.pinned == nil {
+		p.pinned = map[*smt.Term]*smt.Term{}
+		p.pinnedVars = map[string]*smt.Term{}
+	}
+	p.pinned[t] = cv
+	p.pinned[orig] = cv
+	if t.Op == smt.OpVar {
+		p.pinnedVars[t.Name] = cv
+	}
 	return v
 }
 
